@@ -126,29 +126,46 @@ func BlindedOutput(value uint64, asset []byte, script []byte, blindPub []byte) (
 
 func (l *SimLiquidWallet) CreateAndBroadcastTransaction(p *swap.OpeningParams, asset []byte) (string, string, uint64, error) {
 	n := l.n
-	w := n.w
 	f := n.op("lwallet.open")
 	if f != nil && f.Kind == "err" {
 		return "", "", 0, errors.New("wallet rpc: fundrawtransaction failed")
-	}
-	script, err := address.ToOutputScript(p.OpeningAddress)
-	if err != nil {
-		return "", "", 0, err
-	}
-	ca, err := address.FromConfidential(p.OpeningAddress)
-	if err != nil {
-		return "", "", 0, err
 	}
 	fee, err := l.feeFor(int64(onchain.EstimatedOpeningConfidentialTxSizeBytes / 4))
 	if err != nil {
 		return "", "", 0, err
 	}
-	if l.Balance < p.Amount+fee {
-		return "", "", 0, errors.New("Insufficient funds")
-	}
-	swapOut, err := BlindedOutput(p.Amount, asset[1:], script, ca.BlindingKey)
+	txid, rawHex, err := l.fundAndBroadcast(p.OpeningAddress, p.Amount, asset, fee, p, f)
 	if err != nil {
 		return "", "", 0, err
+	}
+	if f != nil && f.Kind == "errafter" {
+		// e.g. LWK: broadcast succeeded, fetching the raw transaction afterwards failed
+		return "", "", 0, errors.New("wallet rpc: failed to fetch transaction after broadcast")
+	}
+	return txid, rawHex, fee, nil
+}
+
+// fundAndBroadcast is what a Liquid wallet daemon does with "send amount to this confidential
+// address": one input, the plan's change / extra outputs, a blinded output to the address, the
+// fee output; broadcast; the swap output is registered as ground truth (p says which swap the
+// call belongs to, the output itself is what addr / amount said).
+func (l *SimLiquidWallet) fundAndBroadcast(addr string, amount uint64, asset []byte, fee uint64, p *swap.OpeningParams, f *Fault) (string, string, error) {
+	n := l.n
+	w := n.w
+	script, err := address.ToOutputScript(addr)
+	if err != nil {
+		return "", "", err
+	}
+	ca, err := address.FromConfidential(addr)
+	if err != nil {
+		return "", "", err
+	}
+	if l.Balance < amount+fee {
+		return "", "", errors.New("Insufficient funds")
+	}
+	swapOut, err := BlindedOutput(amount, asset[1:], script, ca.BlindingKey)
+	if err != nil {
+		return "", "", err
 	}
 	lay := w.Plan.Scn.Layout[n.ID]
 	tx := transaction.NewTx(2)
@@ -157,7 +174,7 @@ func (l *SimLiquidWallet) CreateAndBroadcastTransaction(p *swap.OpeningParams, a
 	var outs []*transaction.TxOutput
 	if lay.Change {
 		_, cs, _ := l.newAddr()
-		v, _ := elementsutil.ValueToBytes(l.Balance - p.Amount - fee)
+		v, _ := elementsutil.ValueToBytes(l.Balance - amount - fee)
 		outs = append(outs, transaction.NewTxOutput(asset, v, cs))
 	}
 	for i := 0; i < lay.Extra; i++ {
@@ -183,26 +200,26 @@ func (l *SimLiquidWallet) CreateAndBroadcastTransaction(p *swap.OpeningParams, a
 	}
 	rawHex, err := tx.ToHex()
 	if err != nil {
-		return "", "", 0, err
+		return "", "", err
 	}
 	txid, err := w.LBTC.Broadcast(n.ID, rawHex, "opening")
 	if err != nil {
-		return "", "", 0, err
+		return "", "", err
 	}
-	redeem, _ := onchain.ParamsToTxScript(p, p.CSV)
-	w.LBTC.RegisterSwap(&SwapOutput{TxID: txid, Vout: uint32(idx), Owner: n.ID, Amount: p.Amount, Script: redeem, PkScript: script, CSV: p.CSV,
-		TakerPub: p.TakerPubkey, MakerPub: p.MakerPubkey, PayHash: p.ClaimPaymentHash, BlindPriv: p.BlindingKey.Serialize(), ValueCommitment: swapOut.Value, AssetOK: true})
-	l.Balance -= p.Amount + fee
+	so := &SwapOutput{TxID: txid, Vout: uint32(idx), Owner: n.ID, Amount: amount, PkScript: script, CSV: 60, ValueCommitment: swapOut.Value, AssetOK: true}
+	if p != nil {
+		redeem, _ := onchain.ParamsToTxScript(p, p.CSV)
+		so.Script, so.CSV = redeem, p.CSV
+		so.TakerPub, so.MakerPub, so.PayHash, so.BlindPriv = p.TakerPubkey, p.MakerPubkey, p.ClaimPaymentHash, p.BlindingKey.Serialize()
+	}
+	w.LBTC.RegisterSwap(so)
+	l.Balance -= amount + fee
 	l.Openings = append(l.Openings, txid)
 	if lay.Change && lay.SpendChange && idx != 0 {
 		w.Sim.After(ms(45000), "wallet", "spend-change", func() { w.LBTC.SpendPlain(n.ID, txid, 0) })
 	}
 	w.Observe(&Obs{Node: n.ID, Inc: n.inc, Kind: "wallet.opening", Str: txid, Num: int64(idx), Tx: &TxObs{Chain: "lbtc", TxID: txid, Hex: rawHex, Kind: "opening", Err: ackLost(f)}})
-	if f != nil && f.Kind == "errafter" {
-		// e.g. LWK: broadcast succeeded, fetching the raw transaction afterwards failed
-		return "", "", 0, errors.New("wallet rpc: failed to fetch transaction after broadcast")
-	}
-	return txid, rawHex, fee, nil
+	return txid, rawHex, nil
 }
 
 func (l *SimLiquidWallet) SendRawTx(rawTx string) (string, error) {
